@@ -134,6 +134,9 @@ pub trait TypeOps {
     fn ser_script_schema(&self, i: usize, w: &mut ScriptWriter) -> Out<usize>;
     fn full_script(&self, rd: &mut ScriptReader) -> Out<Val>;
     fn ser_schema(&self, i: usize) -> Out<SchemaOut>;
+    /// A `SchemaWriter` created on a writer that has already advanced by `r` bytes (a preamble
+    /// of 0xA5), then the value written as "ROOT": rows and the whole sink content.
+    fn inner_schema(&self, i: usize, r: usize) -> Out<SchemaOut>;
     /// `store` value i to a file.
     fn store(&self, i: usize, path: &str) -> Out<()>;
     /// Load with loader 0 load_full / 1 load_mem / 2 load_mmap / 3 mmap / 4 `MemCase::encase`
@@ -154,6 +157,14 @@ pub struct LoadObs {
     pub region_hash: u64,
     /// first bytes of the region (up to 1 MiB) for content comparison
     pub region_bytes: Vec<u8>,
+}
+
+/// A writer that keeps what it is given until it is flushed.
+#[derive(Default)]
+pub struct Staging { pub staged: Vec<u8>, pub delivered: Vec<u8> }
+impl std::io::Write for Staging {
+    fn write(&mut self, b: &[u8]) -> std::io::Result<usize> { self.staged.extend_from_slice(b); Ok(b.len()) }
+    fn flush(&mut self) -> std::io::Result<()> { let s = core::mem::take(&mut self.staged); self.delivered.extend_from_slice(&s); Ok(()) }
 }
 
 pub fn anyhow_kind(e: &anyhow::Error) -> String {
@@ -301,12 +312,33 @@ where
     fn full_script(&self, rd: &mut ScriptReader) -> Out<Val> {
         out3(guarded(|| T::deserialize_full(rd).map(|x| x.to_val()).map_err(|e| err_kind(&e))))
     }
-    fn ser_schema(&self, i: usize) -> Out<SchemaOut> {
+    fn inner_schema(&self, i: usize, r: usize) -> Out<SchemaOut> {
         let vals = self.vals.borrow();
         let v = &vals[i];
         out3(guarded(|| {
             let mut buf: Vec<u8> = Vec::new();
-            let schema = v.serialize_with_schema(&mut buf).map_err(|e| format!("{:?}", e))?;
+            let schema = {
+                let mut w = WriterWithPos::new(&mut buf);
+                w.write_all(&vec![0xA5u8; r]).map_err(|e| format!("{:?}", e))?;
+                let mut sw = epserde::ser::SchemaWriter::new(&mut w);
+                sw.write("ROOT", v).map_err(|e| format!("{:?}", e))?;
+                sw.schema
+            };
+            let rows = schema.0.iter().map(|r| (r.field.clone(), r.offset, r.size, r.align)).collect();
+            let csv = guarded(|| schema.to_csv().lines().count());
+            let debug = guarded(|| schema.debug(&buf).lines().count());
+            Ok(SchemaOut { bytes: buf, rows, csv, debug })
+        }))
+    }
+    fn ser_schema(&self, i: usize) -> Out<SchemaOut> {
+        let vals = self.vals.borrow();
+        let v = &vals[i];
+        out3(guarded(|| {
+            // a sink that hands its data over only when it is flushed: what it holds after the
+            // call returns is the stream that the schema describes
+            let mut sink = Staging::default();
+            let schema = v.serialize_with_schema(&mut sink).map_err(|e| format!("{:?}", e))?;
+            let buf: Vec<u8> = sink.delivered;
             let rows = schema.0.iter().map(|r| (r.field.clone(), r.offset, r.size, r.align)).collect();
             let csv = guarded(|| schema.to_csv().lines().count());
             let debug = guarded(|| schema.debug(&buf).lines().count());
